@@ -23,11 +23,18 @@ func init() {
 // graphs have the same content (identity of pointers is not recorded).
 func dump(v any) string {
 	var b strings.Builder
-	dumpValue(&b, reflect.ValueOf(v), 0)
+	dumpValue(&b, reflect.ValueOf(v), 0, true)
 	return b.String()
 }
 
-func dumpValue(b *strings.Builder, v reflect.Value, depth int) {
+// dumpShape is dump without the spare capacity of slices: for comparing two DIFFERENT objects.
+func dumpShape(v any) string {
+	var b strings.Builder
+	dumpValue(&b, reflect.ValueOf(v), 0, false)
+	return b.String()
+}
+
+func dumpValue(b *strings.Builder, v reflect.Value, depth int, spare bool) {
 	if depth > 200 {
 		b.WriteString("<deep>")
 		return
@@ -43,7 +50,7 @@ func dumpValue(b *strings.Builder, v reflect.Value, depth int) {
 			return
 		}
 		b.WriteString("&")
-		dumpValue(b, v.Elem(), depth+1)
+		dumpValue(b, v.Elem(), depth+1, spare)
 	case reflect.Struct:
 		b.WriteString(v.Type().Name() + "{")
 		for i := 0; i < v.NumField(); i++ {
@@ -51,7 +58,7 @@ func dumpValue(b *strings.Builder, v reflect.Value, depth int) {
 				continue
 			}
 			b.WriteString(v.Type().Field(i).Name + ":")
-			dumpValue(b, v.Field(i), depth+1)
+			dumpValue(b, v.Field(i), depth+1, spare)
 			b.WriteString(";")
 		}
 		b.WriteString("}")
@@ -62,10 +69,21 @@ func dumpValue(b *strings.Builder, v reflect.Value, depth int) {
 		}
 		b.WriteString("[")
 		for i := 0; i < v.Len(); i++ {
-			dumpValue(b, v.Index(i), depth+1)
+			dumpValue(b, v.Index(i), depth+1, spare)
 			b.WriteString(",")
 		}
 		b.WriteString("]")
+		// the spare capacity belongs to the owner of the slice as well: a callee that appends or inserts in
+		// place writes there (and any other slice of the same backing array sees it)
+		if spare && v.Kind() == reflect.Slice && v.Cap() > v.Len() {
+			full := v.Slice(0, v.Cap())
+			b.WriteString("+spare[")
+			for i := v.Len(); i < full.Len(); i++ {
+				dumpValue(b, full.Index(i), depth+1, spare)
+				b.WriteString(",")
+			}
+			b.WriteString("]")
+		}
 	case reflect.Map:
 		if v.IsNil() {
 			b.WriteString("nilmap")
@@ -76,7 +94,7 @@ func dumpValue(b *strings.Builder, v reflect.Value, depth int) {
 		b.WriteString("map{")
 		for _, k := range keys {
 			fmt.Fprintf(b, "%q:", fmt.Sprint(k))
-			dumpValue(b, v.MapIndex(k), depth+1)
+			dumpValue(b, v.MapIndex(k), depth+1, spare)
 			b.WriteString(",")
 		}
 		b.WriteString("}")
